@@ -273,3 +273,15 @@ _c02_obl3 = obligations
 def obligations():
     return _c02_obl3() + [Ob('O2.5-captures-complete-d2', 'every free variable of a closure body is captured (let / binary / call / tuple / while on top)', ob_capture_complete, ('quick', 'thorough'), 10, dict(depth=2, forms=['ELet', 'EBinary', 'ECall', 'ETuple', 'EWhile'])),
                           Ob('O2.5-captures-complete-more', 'same: if / match (scrutinee, arms, default) / unary / projection / array / go / field read on top', ob_capture_complete, ('quick', 'thorough'), 5, dict(depth=2, forms=['EIf', 'EMatch', 'EUnary', 'EProj', 'EArray', 'EGo', 'EConstrGet', 'EConstr'], inner=('EVar', 'ELet'), names=('x', 'z')))]
+
+# ----------------------------------------------------------------------------- O2.6 string literals are printed as Go literals the Go scanner accepts
+def ob_literal_valid_go(r, tier, seed, **kw):
+    """same exploration as C11 O11.3 (lexer-accepted literal -> ast value -> escape_go_string -> reference decoder of Go interpreted string literals);
+    under C02 only `the emitted literal is not a legal Go literal` counts (the decoder returns None), not a legal literal with another value"""
+    from props import c11
+    c11.ob_string_literal(r, tier, seed, **kw)
+    r.findings = [f for f in r.findings if f.key == 'panic' or 'denotes None' in f.what]
+_c02_obl4 = obligations
+def obligations():
+    return _c02_obl4() + [Ob('O2.6-string-literal-legal-go-1', 'every string literal is emitted as a legal Go interpreted string literal: 1 item', ob_literal_valid_go, ('quick', 'thorough'), 1, dict(items=1)),
+                          Ob('O2.6-string-literal-legal-go-2', 'same: 2 items', ob_literal_valid_go, ('quick', 'thorough'), 3, dict(items=2))]
